@@ -439,6 +439,11 @@ func (f *frame) check(kind, name string, pc, goal *Term, pos token.Pos, cl *Clau
 		return
 	}
 	f.emit(kind, name, pc, goal, pos, cl)
+	if kind == "invariant-entry" && containsQuant(goal) {
+		// the invariant is assumed again right after the loop's havoc; keeping the
+		// entry instance as well only feeds the instantiation engine with noise
+		return
+	}
 	f.c.addHyp(Implies(pc, goal))
 }
 
